@@ -62,4 +62,18 @@ PROPS = {
         "components": {"real": ["pcondvariable-posix.c", "pmutex-posix.c", "pmem.c", "pmain.c"], "stub": STUB_PTHREAD},
         "assumptions": COMMON_ASSUME + ["simulated pthread_cond_* / pthread_mutex_* state POSIX semantics"],
     },
+    "C05": {
+        "harness": "threads",
+        "variants": ["T.c11.posix", "T.sync.posix", "T.sim.posix"],
+        "quick_s": 12, "thorough_s": 300,
+        "level": "exploration",
+        "rule": ("one evaluation = one simulated run of a generated program: the root creates 1-6 joinable or detached threads (bodies of TLS set/replace/get on 0-3 keys, "
+                 "result writes, p_uthread_current, ref/unref of the own handle, set_priority, yield, exit(code)) interleaved with ref/unref/join, plus 0-2 threads the "
+                 "library did not create, under one seeded schedule preemptible at every atomic, volatile access and pthread call; distinct = distinct event-log hash; "
+                 "non-trivial = more than one context switch"),
+        "probes": ["thread.joined", "thread.started_before_create_returned", "thread.unref_before_child_started", "tls.key_deleted", "tls.replace_destroyed_old", "thread.foreign_current"],
+        "components": {"real": ["puthread.c", "puthread-posix.c", "patomic-*.c and pspinlock-*.c of the variant", "pmem.c", "pstring.c", "pmain.c"], "stub": STUB_PTHREAD},
+        "assumptions": COMMON_ASSUME + ["simulated pthread_create/join/exit/key_* state POSIX semantics (destructors run in key order, up to 4 rounds)",
+                                        "handle release observed through the tracking allocator (the PUThread block returned by p_uthread_create)"],
+    },
 }
